@@ -40,6 +40,7 @@ ALL = [
     # name, properties, bytes-builder
     ('P2-dangling-link', ['C13', 'C10', 'C02'], lambda: docx(p(r('«1»before '), link('r:id="rId77"', r('«2»dangling')), r('«3» after')))),
     ('P3-no-r-namespace', ['C13', 'C02'], lambda: docx(p(r('«1»text')), ns=ns_decl(omit=('r',)))),
+    ('P3b-anchor-link-no-r-namespace', ['C13', 'C10'], lambda: docx(p('<w:bookmarkStart w:id="1" w:name="bm"/>', r('«1»Heading'), '<w:bookmarkEnd w:id="1"/>') + p(r('«2»see '), link('w:anchor="bm"', r('«3»the heading'))), ns=ns_decl(omit=('r',)))),
     ('P4-empty-ddList', ['C13'], lambda: docx(p(r('«1»a'), '<w:r><w:fldChar w:fldCharType="begin"><w:ffData><w:ddList/></w:ffData></w:fldChar></w:r>'))),
     ('P5-checkbox-on', ['C13'], lambda: docx(p('<w:r><w:fldChar w:fldCharType="begin"><w:ffData><w:checkBox><w:default w:val="on"/></w:checkBox></w:ffData></w:fldChar></w:r>', r('«1»a')))),
     ('P6-vmerge-under-grid-gap', ['C13'], lambda: docx(tbl(tr('<w:trPr><w:gridBefore w:val="1"/></w:trPr>', tc(p(r('«1»a')))), tr(tc(p(r('«2»b'))), tc(p(), pr='<w:vMerge/>'))))),
